@@ -93,12 +93,15 @@ func c09context(base string) *Cfg {
 		c.Meta = &Meta{Pkg: P("gen"), Imports: []KV{{"pk", "fx/pk"}}}
 		c.Params = []Param{{"p1", 1}}
 	case "meta-and-params":
-		c.Services = []Service{{Name: "user", Value: P("Thing{}")}}
+		// a getter without an explicit must_getter: what meta.default_must_getter says is visible in the output
+		// (and a constructor behind the alias pk, so that the alias atom is visible too)
+		c.Services = []Service{{Name: "user", Constructor: P("pk.New"), Getter: P("GetUser")}}
 	case "null-values-and-todo-leftovers":
 		c.Meta = &Meta{Pkg: P("gen"), Imports: []KV{{"pk", "fx/pk"}}}
 		c.Services = []Service{{Name: "s1", Constructor: P("pk.New")}}
 	case "services-and-decorators":
 		c.Meta = &Meta{Pkg: P("gen"), Imports: []KV{{"pk", "fx/pk"}}}
+		c.Version = P("9.9.9") // incompatible with the build; the version atom (a later file) overrides it
 	}
 	return c
 }
@@ -293,6 +296,31 @@ func init() {
 			// a semantic build version: the declared `version` becomes observable through the gate (1.2.3 and 1.0.0 are
 			// compatible with it, 9.9.9 is not)
 			DefaultVersion, DefaultBuildInfo = "1.2.3", "1.2.3 unknown"
+			// harness self-check: every atom is observable - leaving it out changes the single-file output (or the verdict);
+			// an atom that changes nothing would make the splits that isolate it vacuous
+			w.Case("self-check/atoms-are-observable", func(c *C) {
+				for bname, atoms := range c09bases {
+					full := c09context(bname)
+					for _, a := range atoms {
+						a.put(full)
+					}
+					fb := w.Build([]File{{"c.yaml", full.YAML()}})
+					for i := range atoms {
+						part := c09context(bname)
+						for j, a := range atoms {
+							if j != i {
+								a.put(part)
+							}
+						}
+						pb := w.Build([]File{{"c.yaml", part.YAML()}})
+						c.Count("atoms_checked")
+						if pb.OK() == fb.OK() && pb.Output == fb.Output {
+							c.Count("vacuous_atoms")
+							w.Note(fmt.Sprintf("vacuous atom: leaving %s out of base %s does not change the result", atoms[i].id, bname))
+						}
+					}
+				}
+			})
 			single := map[string]string{}
 			for _, bname := range []string{"service-attributes", "meta-and-params", "services-and-decorators", "null-values-and-todo-leftovers"} {
 				atoms := c09bases[bname]
